@@ -586,6 +586,42 @@ mod oracle {
     // ---------------------------------------------------------------- C18 ------------
     #[test]
     fn oracle_c18_init_helpers() {
+        // call-sequence cases first (this test runs on its own thread): mixed precisions, shrinking and growing requests
+        {
+            let a32: Vec<Vec<f32>> = init_det(9, 4);
+            let a64: Vec<Vec<f64>> = init_det(6, 4);
+            let w64: Vec<Vec<f64>> = init_with_seed(6, 4, 42);
+            if a64 != w64 {
+                witness("{\"oracle\":\"c18\",\"what\":\"init_det::<f64>(6,4) after init_det::<f32>(9,4) differs from init_with_seed::<f64>(6,4,42)\"}".to_string());
+            }
+            let w32: Vec<Vec<f32>> = init_with_seed(9, 4, 42);
+            if a32 != w32 {
+                witness("{\"oracle\":\"c18\",\"what\":\"init_det::<f32>(9,4) differs from init_with_seed::<f32>(9,4,42)\"}".to_string());
+            }
+            let b64: Vec<Vec<f64>> = init_det(12, 4);
+            let b32: Vec<Vec<f32>> = init_det(3, 4);
+            if b64 != init_with_seed::<f64>(12, 4, 42) || b32 != init_with_seed::<f32>(3, 4, 42) {
+                witness("{\"oracle\":\"c18\",\"what\":\"init_det after earlier calls of other sizes/precisions differs from init_with_seed(.., 42)\"}".to_string());
+            }
+        }
+        // large requests (possible fast paths): prefix property and purity across sizes
+        for (n1, n2, d) in [(64usize, 128usize, 128usize), (1, 200, 200), (100, 160, 110), (126, 129, 128), (30, 300, 260), (511, 513, 128)] {
+            for seed in [7u64, 42] {
+                let small: Vec<Vec<f64>> = init_with_seed(n1, d, seed);
+                let big: Vec<Vec<f64>> = init_with_seed(n2, d, seed);
+                if big[..n1] != small[..] {
+                    witness(format!("{{\"oracle\":\"c18\",\"n1\":{n1},\"n2\":{n2},\"d\":{d},\"seed\":{seed},\"what\":\"first rows of the larger request differ from the smaller request\"}}"));
+                }
+                let pool = rayon::ThreadPoolBuilder::new().num_threads(3).build().unwrap();
+                let again: Vec<Vec<f64>> = pool.install(|| init_with_seed(n2, d, seed));
+                if again != big {
+                    witness(format!("{{\"oracle\":\"c18\",\"n\":{n2},\"d\":{d},\"seed\":{seed},\"what\":\"init_with_seed depends on the thread pool it is called from\"}}"));
+                }
+                if big.len() != n2 || big.iter().any(|r| r.len() != d) {
+                    witness(format!("{{\"oracle\":\"c18\",\"n\":{n2},\"d\":{d},\"what\":\"shape\"}}"));
+                }
+            }
+        }
         for n in [0usize, 1, 2, 5, 17] {
             for d in [0usize, 1, 3, 8] {
                 for seed in [0u64, 42, 99, u64::MAX] {
